@@ -48,6 +48,9 @@ GEN_TABLES = {
     # speculative early removal of checkpoints of paused trials by a callback at the end of an iteration
     "specrm": (dict(M.BASE, NT=3, Kind="pause", MaxRep=2, MaxRuns=3, FailB=1, R3=False, R13=False, SpecRm=True),
                {"nw": 2, "kind": "pause", "del": True, "maxfail": 1, "spec": True}),
+    # ... and stopped jobs keep their worker for a while (status Stopping, as on SageMaker), three workers
+    "ask_linger": (dict(M.BASE, NT=5, NW=3, Kind="stop", MaxRep=2, MaxRuns=1, FailB=0, R3=False, R13=False, Sjwd=False, Linger=True),
+                   {"nw": 3, "kind": "stop", "del": True, "maxfail": 1, "sjwd": False, "linger": True}),
     # PBT-type scheduler: clone decisions queued in on_trial_result, popped by suggest (R8: see known finding F08)
     "pbt": (dict(M.BASE, NT=4, Kind="pbt", MaxRep=3, MaxRuns=1, FailB=1, R3=False, R13=False, R8=True),
             {"nw": 2, "kind": "pbt", "del": True, "maxfail": 1}),
